@@ -81,6 +81,9 @@ func checkC01(c *Ctx) {
 	c.Rule("C01-R29", "colours as last set, foreground and background: in sendFgBg every way to a return passes an emission that carries the background (SetBg, SetFgBg or an RGB form), or a test that found the background invalid or the capability empty, or the monochrome branch (an else-if chain selects the foreground and forgets the background on terminals without a combined capability)")
 	c.Expect("C01-R29", 1)
 	checkBackgroundSelectedOnEveryPath(c, p, "C01-R29")
+	c.Rule("C01-R30", "runes shown through the alternate character set: each glyph of the ACS table carries its own enter and exit sequence (a mode tracked across cells is undone behind the screen's back by the attribute reset, which leaves the alternate set on most terminals; = C17-R3)")
+	c.Expect("C01-R30", 60)
+	c.asRule("C17-R3", "C01-R30", func() { c17Acs(c, p) })
 	get := func(name string) *ssa.Function {
 		fn := p.Fn("tcell:(*tScreen)." + name)
 		if fn == nil {
